@@ -11,13 +11,13 @@ import (
 )
 
 // VerifSetGossip replaces the gossip sender of the swarm and makes every peer created from now
-// on use it, with the 5 ms send-queue timer cancelled (the harness flushes explicitly).
+// on use it, without the 5 ms send-queue timer (the harness flushes explicitly).
 func (s *Swarm) VerifSetGossip(g mesh.Gossip) {
 	s.gossip = g
 	s.members = newMemberlist(func(name mesh.PeerName) *Peer {
-		p := s.newPeer(name)
-		p.cancel()
-		return p
+		// the literal of newPeer without the timer goroutine (cancelling it afterwards would leave a
+		// window in which one stray tick can still flush the queue concurrently with the harness)
+		return VerifNewPeer(s.gossip, name)
 	})
 }
 
